@@ -124,7 +124,7 @@ func newRequestSim(p *Prog) *reqSim {
 			// marker field of the request is set under a test of that same field (test-and-set)
 			if fa, ok := stv.Addr.(*ssa.FieldAddr); ok && namedOf(fa.X.Type()) == req {
 				f := fieldOfAddr(fa)
-				if f != rs.doneF && consumesBudget(stv, f) {
+				if f != rs.doneF && consumesBudget(stv, f) && counterBounds(p, req, f) {
 					st.addEff("budget")
 				}
 			}
@@ -156,6 +156,47 @@ func consumesBudget(stv *ssa.Store, f *types.Var) bool {
 		}
 	}
 	return false
+}
+
+// counterBounds: the field limits something: a method of the request compares it (with a
+// constant, a limit or another field), or hands it to the retry policy, which decides on it.  A
+// counter that is only incremented is not a budget.
+var counterBoundsCache = map[*types.Var]bool{}
+
+func counterBounds(p *Prog, req *types.Named, f *types.Var) bool {
+	if v, ok := counterBoundsCache[f]; ok {
+		return v
+	}
+	res := false
+	for _, m := range p.methodsOf(req) {
+		for _, fn := range withClosures(m) {
+			eachInstr(fn, func(in ssa.Instruction) {
+				switch x := in.(type) {
+				case *ssa.BinOp:
+					switch x.Op {
+					case token.EQL, token.NEQ, token.LSS, token.LEQ, token.GTR, token.GEQ:
+						for _, side := range []ssa.Value{x.X, x.Y} {
+							for _, o := range origins(side) {
+								if lf, _ := loadedField(o); lf == f {
+									res = true
+								}
+							}
+						}
+					}
+				case ssa.CallInstruction:
+					if _, ok := isPolicyInvoke(x); ok {
+						for _, a := range x.Common().Args {
+							if lf, _ := loadedField(a); lf == f {
+								res = true
+							}
+						}
+					}
+				}
+			})
+		}
+	}
+	counterBoundsCache[f] = res
+	return res
 }
 
 func (rs *reqSim) problem(key, pos, detail string) {
@@ -405,7 +446,7 @@ func c01Local(p *Prog, r *Report) {
 
 func c01Handoff(p *Prog, r *Report) {
 	const rule = "C01.handoff"
-	r.Rule(rule, "a backend reply matched to a pending request is delivered to exactly that request exactly once (OnResult, or a successfully registered re-prepare wrapping it); wrappers forward exactly once")
+	r.Rule(rule, "a backend reply matched to a pending request is delivered to exactly that request exactly once (OnResult, a successfully registered re-prepare wrapping it, or Execute(true) when the re-prepare cannot be sent); wrappers forward exactly once")
 	r.Rule("C01.closing", "a dying backend connection marks itself closing before notifying, notifies every pending request, and no request is registered after the mark")
 	cc := p.Named("proxycore", "ClientConn")
 	recv := p.methodOf(cc, "Receive")
@@ -417,8 +458,12 @@ func c01Handoff(p *Prog, r *Report) {
 	origF := p.FieldRole("proxycore", "prepareRequest", "origRequest", isRequestIface)
 
 	s := newSim(p)
+	isPrepCtor := func(fn *ssa.Function) bool {
+		// a constructor helper of the re-prepare wrapper
+		return fn != nil && fn.Blocks != nil && p.InRepo(fn) && fn.Signature.Recv() == nil && fn.Signature.Results().Len() == 1 && namedOf(fn.Signature.Results().At(0).Type()) == prepReq
+	}
 	s.Inline = func(fn *ssa.Function) bool {
-		return recvNamed(fn) == cc && fn.Parent() == nil && fn != sendFn
+		return (recvNamed(fn) == cc && fn.Parent() == nil && fn != sendFn) || isPrepCtor(fn)
 	}
 	s.OnInstr = func(st *State, in ssa.Instruction) {
 		if stv, ok := in.(*ssa.Store); ok {
@@ -448,6 +493,9 @@ func c01Handoff(p *Prog, r *Report) {
 					if a, ok := o.(*ssa.Alloc); ok && namedOf(a.Type()) == prepReq {
 						wraps = true
 					}
+					if c, ok := o.(*ssa.Call); ok && isPrepCtor(c.Call.StaticCallee()) {
+						wraps = true
+					}
 				}
 			}
 			okSt := st.clone()
@@ -467,7 +515,18 @@ func c01Handoff(p *Prog, r *Report) {
 				st.addEff("onresult-other")
 			}
 			return []*State{st}
-		case call.Common().IsInvoke() && (call.Common().Method.Name() == "OnClose" || call.Common().Method.Name() == "Execute") && recvNamedIs(call.Common().Method, "proxycore", "Request"):
+		case call.Common().IsInvoke() && call.Common().Method.Name() == "Execute" && recvNamedIs(call.Common().Method, "proxycore", "Request"):
+			// Execute(true) on the matched request hands it to the next host (the re-prepare could not
+			// even be sent here): the request goes on, exactly once
+			a := sm.eval(st, call.Common().Value)
+			nb, known := sm.eval(st, call.Common().Args[0]).isBool()
+			if a.K == avSym && a.S == "req" && known && nb {
+				st.addEff("moved-on")
+			} else {
+				st.addEff("other-callback")
+			}
+			return []*State{st}
+		case call.Common().IsInvoke() && call.Common().Method.Name() == "OnClose" && recvNamedIs(call.Common().Method, "proxycore", "Request"):
 			st.addEff("other-callback")
 			return []*State{st}
 		}
@@ -483,7 +542,7 @@ func c01Handoff(p *Prog, r *Report) {
 			continue
 		}
 		n++
-		k := o.St.eff["onresult"] + o.St.eff["reprepare"]
+		k := o.St.eff["onresult"] + o.St.eff["reprepare"] + o.St.eff["moved-on"]
 		desc := fmt.Sprintf("path ending at %s {%s ret=%s}", p.Pos(o.Pos), effStr(o.St), o.Ret)
 		if k == 0 {
 			bad = append(bad, "matched request is dropped (neither OnResult nor a registered re-prepare): "+desc)
